@@ -251,6 +251,9 @@ struct World {
     pending_nt: [bool; 2],
     nontrivial: bool,
     shape: Vec<(u8, &'static str, u8)>,
+    /// ground truth kept by the harness: per accepted block, the outpoints a listener watched
+    /// that the block spends (what a removal proof for that block has to account for)
+    spent_watched: std::collections::BTreeMap<BlockHash, Vec<OutPoint>>,
 }
 
 /// What the harness knows about a request.
@@ -342,6 +345,7 @@ impl World {
             any_rejection: false,
             pending_nt: [false; 2],
             nontrivial: false,
+            spent_watched: Default::default(),
             shape: vec![],
         }
     }
@@ -977,6 +981,9 @@ impl C13 {
             None => Ok(Flow::Stop),
             Some(false) => Ok(Flow::Continue),
             Some(true) => {
+                if !picked.is_empty() {
+                    w.spent_watched.insert(block.block_hash(), picked.clone());
+                }
                 w.chain.push(Blk { block, fh: recorded_fh, height: h_new });
                 w.window = (w.window + 1).min(MAX_WINDOW);
                 let t = w.tr.tip();
@@ -1129,8 +1136,10 @@ impl C13 {
             v.either.extend(va.either);
         }
 
-        let spends_watched =
-            tipb.block.txdata.iter().any(|t| t.input.iter().any(|i| outpoints.contains(&i.previous_output)));
+        // by the harness's own record of what the listeners watched when the block was connected
+        // (the tracker's reverse watches are what is under test), or by the tracker's answer
+        let spends_watched = w.spent_watched.get(&tipb.block.block_hash()).map_or(false, |v| !v.is_empty())
+            || tipb.block.txdata.iter().any(|t| t.input.iter().any(|i| outpoints.contains(&i.previous_output)));
         let mut stream: Option<(BlockHash, Vec<(u32, Vec<u8>)>)> = None;
         let mk_stream = |b: &Block, cuts: &[u16]| {
             let len = lightning_signer::bitcoin::consensus::serialize(b).len();
@@ -1338,6 +1347,27 @@ impl Prop for C13 {
                     rem(Fault::PrevHeader, Delivery::Compact),
                     rem(Fault::None, Delivery::Compact),
                 ],
+            },
+            // a listener with far more than a hundred spent outpoints it still watches in reverse:
+            // 150 blocks each spending one watched outpoint, then the last twelve are taken off again,
+            // each first with a proof that hides the spend (refused), then correctly
+            Case {
+                node_restore: None,
+                start: Start::Synth { height: 0, diff: 0, window: 3, zero_fh: false },
+                oracles: 1,
+                listeners: 1,
+                allow_deep: false,
+                ops: {
+                    let mut ops = vec![];
+                    for _ in 0..150 {
+                        ops.push(Op::Add { content: Content { spend: vec![0], chain: false, noise: 0 }, delivery: Delivery::Compact, bits: 0, fault: Fault::None, att: FULL_ATT });
+                    }
+                    for _ in 0..12 {
+                        ops.push(rem(Fault::ProofOmitsSpend, Delivery::Compact));
+                        ops.push(rem(Fault::None, Delivery::Compact));
+                    }
+                    ops
+                },
             },
         ]
         .into_iter()
